@@ -791,8 +791,8 @@ mutual
       else rvalue f .push .main
 end
 
-/-- fuel that the rvalue family never exhausts (see `Props/C06Parse.lean`) -/
-def rvFuel (st : St) : Nat := 4 * st.rest.length + 8
+/-- fuel that the rvalue family and the small loops never exhaust (see `Proofs/ParseTokRv.lean`) -/
+def rvFuel (st : St) : Nat := 6 * st.rest.length + 8
 
 /-- `self._rvalue(dest, code_gen)` as the statement routines call it -/
 def rvalueTop (dest : Dest := .to result) (cg : CG := .main) : M Unit := fun st =>
@@ -831,7 +831,7 @@ def timePatternsMore : Nat → M Unit
         timePatternsMore f
     else pure ()
 
-def timePatternsLoop : M Unit := fun st => timePatternsMore (st.rest.length + 1) st
+def timePatternsLoop : M Unit := fun st => timePatternsMore (rvFuel st) st
 
 def processTimePatterns : M Unit := do
   match (← getSt).currentTimePattern with
@@ -963,6 +963,12 @@ def macroDefinition (name : String) : M Unit := do
 def St.detectRoutineStart (st : St) : Bool :=
   st.hasRoutine st.cur.str || st.cur.ty.isExecutable || st.cur.ty == .begin_ || st.cur.ty == .with_
 
+/-- `routine.add_param(name); add_variable(name); next_token()` -/
+def declParam (routine name : String) : M Unit := do
+  addParam routine name
+  addVariable name
+  skipToken
+
 /-- the `while` loop of `_param_decl`; a duplicate name leaves a message and returns `None` -/
 def paramDeclMore (routine : String) : Nat → M Unit
   | 0 => outOfFuel
@@ -974,21 +980,18 @@ def paramDeclMore (routine : String) : Nat → M Unit
         | some s => s.params.contains name
         | none => false
       if has then tokenError "Duplicate parameter name: \"" "\""
-      addParam routine name
-      addVariable name
-      skipToken
-      paramDeclMore routine f
+      else
+        declParam routine name
+        paramDeclMore routine f
     else pure ()
 
 def paramDeclLoop (routine : String) : M Unit := fun st =>
-  paramDeclMore routine (st.rest.length + 1) st
+  paramDeclMore routine (rvFuel st) st
 
 /-- `_param_decl(routine)` -/
 def paramDecl (routine : String) : M Unit := do
   let name := (← getSt).cur.str
-  addParam routine name
-  addVariable name
-  skipToken
+  declParam routine name
   paramDeclLoop routine
 
 /-- `_return` -/
@@ -1065,7 +1068,7 @@ def zoneRange : M Unit := do
 def matrixRange (what : String) (first last : Reg) : M Unit := do
   skipToken
   if !(← getSt).atRvalue false then tokenError what ""
-  rangeRegs first last
+  else rangeRegs first last
 
 /-- `MatrixParser._inline_operand`: the loop over `row` / `column` -/
 def inlineMore : Nat → Bool → Bool → M (Bool × Bool)
@@ -1074,15 +1077,17 @@ def inlineMore : Nat → Bool → Bool → M (Bool × Bool)
     match (← getSt).cur.ty with
     | .row =>
       if hasRows then triggerError "\"row\" supplied more than once."
-      matrixRange "Expected range for rows, got " .firstRow .lastRow
-      inlineMore f true hasCols
+      else
+        matrixRange "Expected range for rows, got " .firstRow .lastRow
+        inlineMore f true hasCols
     | .column =>
       if hasCols then triggerError "column supplied more than once."
-      matrixRange "Expected a range for columns, got " .firstColumn .lastColumn
-      inlineMore f hasRows true
+      else
+        matrixRange "Expected a range for columns, got " .firstColumn .lastColumn
+        inlineMore f hasRows true
     | _ => return (hasRows, hasCols)
 
-def inlineLoop : M (Bool × Bool) := fun st => inlineMore (st.rest.length + 1) false false st
+def inlineLoop : M (Bool × Bool) := fun st => inlineMore (rvFuel st) false false st
 
 def inlineOperand : M Unit := do
   emit (.moveq (.operand .matrix) (.reg .operand))
@@ -1171,7 +1176,7 @@ def preLoopList (lt : LoopType) : Nat → M Unit
         preLoopList lt f
       emitList mine
 
-def preLoopListTop (lt : LoopType) : M Unit := fun st => preLoopList lt (st.rest.length + 1) st
+def preLoopListTop (lt : LoopType) : M Unit := fun st => preLoopList lt (rvFuel st) st
 
 /-- `_pre_loop_as` -/
 def preLoopAs : M String := do
